@@ -198,6 +198,12 @@ fn gen_shape(src: &mut Src, slot: usize, allow_nonmanhattan_path: bool) -> HShap
             if pts.len() < 2 {
                 pts.push((pts[0].0 + 3, pts[0].1));
             }
+            // one path in ten is a ring: a rectangular loop that ends on the point it started from (still an
+            // open poly-line as far as the format goes: five points, four sides)
+            if src.prob(1, 10) {
+                let (a, b) = ((src.i64_in(8, 16), src.i64_in(8, 16)), (src.i64_in(22, 32), src.i64_in(22, 32)));
+                pts = vec![a, (b.0, a.1), b, (a.0, b.1), a];
+            }
             HGeom::Path(pts.into_iter().map(sh).collect(), src.i64_in(0, 8))
         }
     };
